@@ -42,7 +42,8 @@ def tlc_opts(flav, opts):
 
 def base_record(ev, tid, flav, net, opts=None):
     gk, norm = U.FLAVS[flav] if flav in U.FLAVS else (net.gk, 1)
-    r = {"ev": ev, "tid": tid, "flav": flav, "gk": gk, "norm": norm, "exc": "", "kind": net.kind}
+    r = {"ev": ev, "tid": tid, "flav": flav, "gk": gk, "norm": norm, "exc": "", "kind": net.kind,
+         "scalar": any(len(ix) == 0 for ix, _ in net.tensors), "isolated": int(getattr(net, "isolated", 0))}
     if net.exact:
         r["net"] = net.to_json()
         r["name"] = list(net.name)
@@ -135,7 +136,8 @@ def observe_object(flav, net, opts, tid, rng, mode="iterate", order=None, forced
     if lcdamp:
         want = ()
     end = {"ev": "end", "tid": tid, "exc": "", "converged": conv, "iterations": its, "flav": flav,
-           "kind": net.kind, "damped": damped, "lcdamp": lcdamp}
+           "kind": net.kind, "damped": damped, "lcdamp": lcdamp,
+           "scalar": any(len(ix) == 0 for ix, _ in net.tensors), "isolated": int(getattr(net, "isolated", 0))}
     end["exact"], _ = U.exact_pairs(flav, bp, net, refmsgs, U.END_TOL if damped else etol)
     snap = net.exact and not damped
     real = net.kind in ("pos", "signed")
@@ -284,10 +286,10 @@ KINDS = {
 }
 
 
-def gen_net(rng, flav, kind, size, **kw):
-    """a non-degenerate acyclic network for the flavour whose totals fit the exact domain"""
+def _gen_net_once(rng, flav, kind, size, tries, **kw):
+    """a non-degenerate acyclic network for the flavour whose totals fit the exact domain, or None"""
     gk, norm = U.FLAVS[flav]
-    for _ in range(400):
+    for _ in range(tries):
         if gk == "dense":
             net = U.gen_dense(rng, size, kind, phys=(norm == 2), dmax=2 if norm == 2 else 3, **kw)
         elif gk == "lazy":
@@ -305,8 +307,9 @@ def gen_net(rng, flav, kind, size, **kw):
             continue
         if kind in ("signed", "cplx") and not ref.truncations_ok():
             continue
+        net.isolated = int(kw.get("isolated", 0))
         return net
-    raise RuntimeError("no admissible network found")
+    return None
 
 
 def rand_opts(r, flav, damped_ok=True):
@@ -327,8 +330,28 @@ def rand_opts(r, flav, damped_ok=True):
     return o
 
 
+def gen_net(rng, flav, kind, size, **kw):
+    """as _gen_net_once; signed / complex integer data on larger trees rarely passes the genericity
+    pre-flight (no vanishing message for any truncation pattern): the size is then reduced"""
+    for sz in range(size, 0, -1):
+        net = _gen_net_once(rng, flav, kind, sz, 150 if sz > 2 else 600, **kw)
+        if net is not None:
+            return net
+    raise RuntimeError("no admissible network found")
+
+
 def is_float(kind):
     return kind in ("float", "floatc")
+
+
+def forest_choice(r, flav, j):
+    """Every third case of a flavour is a forest with single-site components (a tensor / site bonded to
+    nothing; rank-0 tensors where the flavour takes no dangling labels), in the exact domain so that TLC
+    recomputes the value: returns (kind or None, isolated)."""
+    if j % 3 != 0:
+        return None, 0
+    exact = [k for k in KINDS[flav] if not is_float(k)]
+    return exact[(j // 3) % len(exact)], 1 + (j // 3) % 2
 
 
 def object_traces(seed, n, tid0, sizes):
@@ -340,8 +363,13 @@ def object_traces(seed, n, tid0, sizes):
         flav = flavs[k % len(flavs)]
         gk, norm = U.FLAVS[flav]
         kind = r.choice(KINDS[flav])
+        fkind, iso = forest_choice(r, flav, k // len(flavs))
+        kind = fkind or kind
         size = r.choice(sizes["float"] if is_float(kind) else (sizes["n2"] if norm == 2 else sizes["n1"]))
         kw = {}
+        if iso:
+            kw["isolated"] = iso
+            size = max(1, min(size, 4) - (1 if norm == 2 else 0))
         if gk == "dense":
             kw["shape"] = r.choice(["random", "random", "chain", "star", "binary"])
             kw["forest"] = r.random() < 0.15
@@ -375,12 +403,16 @@ def entry_records(seed, n, tid0, sizes):
         kind = r.choice(KINDS[flav])
         scalar = gk != "lazy" and norm == 1 and r.random() < 0.12
         kw = {"scalar": True} if scalar else {}
+        fkind, iso = forest_choice(r, flav, k // len(flavs))
+        kind = fkind or kind
         size = r.choice(sizes["float"] if is_float(kind) else (sizes["n2"] if norm == 2 else sizes["n1"]))
+        if iso:
+            kw["isolated"] = iso
+            size = max(1, min(size, 4) - (1 if norm == 2 else 0))
         net = gen_net(rng, flav, kind, size, **kw)
         ref = U.Ref(net, norm)
         rec = base_record("entry", tid0 + k, flav, net)
         rec["fn"] = fns[flav].__name__
-        rec["scalar"] = bool(scalar)
         call = {}
         tight = r.random() < 0.6
         if tight:
@@ -440,7 +472,11 @@ def gauge_records(seed, n, tid0, sizes):
         kind = r.choice(KINDS[flav])
         # the dense tensor over the physical labels is compared: at most 10 sites
         size = r.choice([s2 for s2 in sizes["float"] if s2 <= 10] if is_float(kind) else sizes["n2"])
-        net = gen_net(rng, flav, kind, size)
+        fkind, iso = forest_choice(r, flav, k // len(fnames))
+        kw = {}
+        if iso:
+            kind, kw["isolated"], size = fkind, iso, max(1, min(size, 3))
+        net = gen_net(rng, flav, kind, size, **kw)
         rec = base_record("gauge", tid0 + k, flav, net)
         rec["fn"] = fn
         rec["dq"] = 999999
